@@ -61,9 +61,13 @@ CHECKS = {
          "operators computed from canonical forms are coherent: == iff equal canonical forms, equal objects hash equally for "
          "ANY hash function of the canonical form, != is the negation, <= is total and transitive, < transitive and "
          "irreflexive, the four order operators are mutually consistent, == iff equivalence (lexicographic orders built "
-         "with good_lex/good_pair over code-point strings). The model is tied to the code by running the six operators, "
+         "with good_lex/good_pair over code-point strings). sorted() of objects ordered this way lists the same sequence of "
+         "canonical forms for every arrangement of the input, is an ascending permutation of it and stable (objects with one "
+         "canonical form, e.g. from different subclass registries, keep their input order); min()/max() are its ends "
+         "(no assumption that the key is injective). The model is tied to the code by running the six operators, "
          "hash(), set() and sorted() on real objects from generated populations (three registries, structure-only and "
-         "type-only differences) and comparing with the model evaluated on the canonical forms the objects report. "
+         "type-only differences, families of indexed names) and comparing with the model evaluated on the canonical forms the "
+         "objects report; sorted()/min()/max() of several arrangements of 3-6 live objects are compared with the model's stable sort. "
          "Partial: read-only attributes and copied views are runtime behaviour, observed on every run, not a theorem.",
     design="DESIGN.md 7 (C10)", technique="Coq proof (total-order laws for lexicographic comparisons) + model/implementation correspondence"),
  "C11": dict(
